@@ -23,14 +23,14 @@ SUP = 'emd/_cycles_support.py'
 FUNCTIONS = ['emd._cycles_support.' + f for f in (
     'map_cycle_to_samples', 'map_sample_to_cycle', 'map_subset_to_cycle', 'map_cycle_to_subset', 'map_subset_to_sample',
     'map_sample_to_subset', 'map_chain_to_subset', 'map_subset_to_chain', 'map_cycle_to_chain', 'map_sample_to_chain',
-    'project_cycles_to_samples', 'project_subset_to_cycles', 'project_chain_to_subset')] + ['emd.cycles.get_subset_vector', 'emd.cycles.get_chain_vector']
+    'project_cycles_to_samples', 'project_subset_to_cycles', 'project_chain_to_subset', 'project_subset_to_samples', 'project_chain_to_cycles', 'project_chain_to_samples')] + ['emd.cycles.get_subset_vector', 'emd.cycles.get_chain_vector']
 ASSUMPTIONS = [
     'floats are mathematical reals with a separate NaN flag; numpy ints unbounded',
     'assumed numpy contracts (cross-checked natively, not proved): where, ==, diff, all, zeros_like, astype, r_, integer-array (fancy) assignment, scalar indexing',
     'well-formedness of subset vectors is stated in bijection form (POS); that get_subset_vector outputs satisfy it is an induction the solver does not do: checked by the bounded stand-in only',
-    'callees without loops are rebuilt from the real source in the same namespace and verified as part of their caller (inlined)',
+    'callees without loops are rebuilt from the real source in the same namespace and verified as part of their caller (inlined); the composite projections (project_chain_to_cycles, project_chain_to_samples, project_subset_to_samples) and map_subset_to_sample call their callees through contract stubs whose pre-conditions become obligations at the call and whose post-conditions are the ones discharged in the callee\'s own unit',
 ]
-NOT_COVERED = ['map_chain_to_cycle, map_chain_to_samples, project_subset_to_samples, project_chain_to_cycles, project_chain_to_samples: symbolic-length comprehensions over variable-length pieces - bounded stand-in only',
+NOT_COVERED = ['map_chain_to_cycle, map_chain_to_samples: np.hstack over a symbolic-length comprehension of variable-length pieces - bounded stand-in only',
                'augmented-cycle maps (outside the property)']
 
 N = z3.Int('N')        # samples
@@ -92,6 +92,33 @@ def _opt_post(c, name, ret, none_iff, value):
         c.oblige(name + ':value', and_(not_(none_iff), ret == value), 'post')
 
 
+def _proj_spec(out, vals, key, i, upto):
+    """projection contract at position i: key[i] in [0, upto) -> out[i] is vals[key[i]] (missing iff that value is missing); else out[i] is missing"""
+    hit = and_(0 <= key[i], key[i] < upto)
+    nanf = npshim.isnan(out)
+    vnan = npshim.isnan(vals)
+    return and_(implies(hit, lambda: and_(nanf[i] == vnan[key[i]], implies(not_(vnan[key[i]]), lambda: out[i] == vals[key[i]]))), implies(not_(hit), lambda: nanf[i]))
+
+
+def _proj_stub(name):
+    """contract stub of a basic projection (each is a unit of this file): requires key >= -1 and a non-empty key vector; ensures _proj_spec everywhere"""
+    def stub(vals, key):
+        c = core.C()
+        n = key.shape_e[0]
+        q = c.fresh('pq', I)
+        c.obl.append(core.Obligation('%s:requires-keys->=-1' % name, list(c.pc) + [z3.And(0 <= q, q < n)], key.elem(q) >= -1, 'pre', list(c.prefix[:c.pos])))
+        c.oblige('%s:requires-nonempty-key-vector' % name, n >= 1, 'pre')
+        O = c.fresh_fun(name + '_out', I, R)
+        ON = c.fresh_fun(name + '_missing', I, B)
+        out = SArr((n,), lambda i: O(i), 'f', nan=lambda i: ON(i))
+        i = SInt(z3.Int('sq%d' % next(core._buf_ids)))
+        with core.SpecMode():
+            body = implies(and_(0 <= i, i < wrap(n)), lambda: _proj_spec(out, vals, key, i, vals.shape[0]))
+        c.assume(z3.ForAll([i.e], lift(body)))
+        return out
+    return stub
+
+
 def units(tier):
     import emd._cycles_support as CS
     import emd.cycles as EC
@@ -139,8 +166,14 @@ def units(tier):
         sv, SV = _sv(c)
         cv, CV = _cv(c)
         return (sv, cv, _idx(c, 'k', NS)), {}
+    def subset_to_cycle_stub(subset_vect, ii):
+        """contract of map_subset_to_cycle (its own unit above: post:exactly-one, post:is-POS): requires 0 <= ii < number of subset cycles"""
+        c = core.C()
+        c.oblige('map_subset_to_cycle:requires-existing-subset-cycle', z3.And(0 <= lift(ii), lift(ii) < NS), 'pre')
+        return SArr((z3.IntVal(1),), lambda q: POS(lift(ii)), 'i')
     unit('map_subset_to_sample', mk, lambda c, a, kw, r: _post_set(c, 'post', r, a[1].shape[0], lambda s: a[1][s] == wrap(POS(lift(a[2])))),
-         inline=['map_subset_to_cycle', 'map_cycle_to_samples'])
+         inline=['map_cycle_to_samples'])
+    U[-1].ns = dict(U[-1].ns or {}, map_subset_to_cycle=subset_to_cycle_stub)
 
     # -- map_sample_to_subset
     def mk(c):
@@ -215,16 +248,16 @@ def units(tier):
 
         def mk(c):
             key, KEY = vec(keyname, NK, 'i')
-            vals, V = vec('vals', NV, 'f')
+            V = z3.Function('vals', I, R)
+            VN = z3.Function('vals_missing', I, B)       # the values may themselves be missing (NaN): a projection of a projection
+            vals = SArr((NV,), lambda q: V(q), 'f', nan=lambda q: VN(q))
             i = z3.Int('i')
             c.assume(z3.And(NK >= 1, NV >= 0))
             c.assume(z3.ForAll([i], KEY(i) >= -1, patterns=[KEY(i)]))
             return (vals, key), {}
 
         def spec(out, vals, key, i, upto):
-            hit = and_(0 <= key[i], key[i] < upto)
-            nanf = npshim.isnan(out)
-            return and_(implies(hit, lambda: and_(not_(nanf[i]), out[i] == vals[key[i]])), implies(not_(hit), lambda: nanf[i]))
+            return _proj_spec(out, vals, key, i, upto)
         loops = {0: {'inv': [
             ('shape', lambda e: e.out.shape[0] == getattr(e, keyname_arg(name)).shape[0]),
             ('placed', lambda e: forall(0, getattr(e, keyname_arg(name)).shape[0], lambda i: spec(e.out, e.vals, getattr(e, keyname_arg(name)), i, e.ii))),
@@ -243,6 +276,86 @@ def units(tier):
     proj_unit('project_cycles_to_samples', 'cyclevect', ['map_cycle_to_samples'], 'N', 'NV')
     proj_unit('project_subset_to_cycles', 'subsetvect', ['map_subset_to_cycle'], 'NC', 'NV')
     proj_unit('project_chain_to_subset', 'chainvect', ['map_chain_to_subset'], 'NS', 'NV')
+
+    # -- composite projections, modularly: the inner projections by their contracts (units above)
+    def comp_unit(name, nargs, stubs, expect):
+        def mk(c):
+            V = z3.Function('vals', I, R)
+            vals = SArr((NCH,), lambda q: V(q), 'f')
+            c.assume(z3.And(NCH >= 0, NS >= 1, NC >= 1, N >= 1))
+            ch, CH = vec('ch', NS, 'i')
+            sv, SV = vec('sv', NC, 'i')
+            cv, CV = vec('cv', N, 'i')
+            i = z3.Int('i')
+            for F in (CH, SV, CV):
+                c.assume(z3.ForAll([i], F(i) >= -1, patterns=[F(i)]))
+            return {'cs': (vals, ch, sv), 'cm': (vals, ch, sv, cv), 'sm': (SArr((NS,), lambda q: V(q), 'f'), sv, cv)}[nargs], {}
+
+        def post(c, a, kw, r):
+            i = SInt(z3.Int('pi'))
+            n_out = a[-1].shape[0]
+            c.oblige('post:shape', r.shape_e[0] == a[-1].shape_e[0], 'post')
+            with core.SpecMode():
+                nanf = npshim.isnan(r)
+                hit, val = expect(a, i)
+                c.oblige('post:placed', implies(and_(0 <= i, i < n_out), lambda: and_(implies(hit, lambda: and_(not_(nanf[i]), r[i] == val())), implies(not_(hit), lambda: nanf[i]))), 'post')
+        u = Unit(name, SUP, name, mk, post, module=CS, ns={k: _proj_stub(k) for k in stubs})
+        U.append(u)
+
+    def chain_of_cycle(a, i):          # (vals, ch, sv[, cv]) at cycle i
+        vals, ch, sv = a[0], a[1], a[2]
+        k = sv[i]
+        inner = lambda: ch[ite(and_(0 <= k, k < ch.shape[0]), k, 0)]
+        hit = and_(0 <= k, k < ch.shape[0], 0 <= inner(), inner() < vals.shape[0])
+        return hit, (lambda: vals[inner()])
+    comp_unit('project_chain_to_cycles', 'cs', ['project_chain_to_subset', 'project_subset_to_cycles'], chain_of_cycle)
+
+    def chain_of_sample(a, i):
+        vals, ch, sv, cv = a
+        cyc = cv[i]
+        okc = and_(0 <= cyc, cyc < sv.shape[0])
+        cyc0 = ite(okc, cyc, 0)
+        h1, v1 = chain_of_cycle((vals, ch, sv), cyc0)
+        return and_(okc, h1), v1
+    # -- project_subset_to_samples: inner projection by contract, then its own placement loop (same invariant as the basic projections)
+    def subset_of_sample(a, i):
+        vals, sv, cv = a
+        cyc = cv[i]
+        okc = and_(0 <= cyc, cyc < sv.shape[0])
+        k = sv[ite(okc, cyc, 0)]
+        hit = and_(okc, 0 <= k, k < vals.shape[0])
+        return hit, (lambda: vals[ite(hit, k, 0)])
+    comp_unit('project_subset_to_samples', 'sm', ['project_subset_to_cycles'], subset_of_sample)
+    U[-1].loops = {0: {'inv': [
+        ('shape', lambda e: e.out.shape[0] == e.cycle_vect.shape[0]),
+        ('placed', lambda e: forall(0, e.cycle_vect.shape[0], lambda i: _proj_spec(e.out, e.cycle_vals, e.cycle_vect, i, e.ii))),
+    ]}}
+    U[-1].inline = [(SUP, 'map_cycle_to_samples', {})]
+
+    def chain_to_cycles_stub(vals, chain_vect, subset_vect):
+        """contract of project_chain_to_cycles (the unit just above)"""
+        c = core.C()
+        n = subset_vect.shape_e[0]
+        q = c.fresh('pq', I)
+        c.obl.append(core.Obligation('project_chain_to_cycles:requires-keys->=-1', list(c.pc) + [z3.And(0 <= q, q < n)], subset_vect.elem(q) >= -1, 'pre', list(c.prefix[:c.pos])))
+        q2 = c.fresh('pq', I)
+        c.obl.append(core.Obligation('project_chain_to_cycles:requires-keys->=-1', list(c.pc) + [z3.And(0 <= q2, q2 < chain_vect.shape_e[0])], chain_vect.elem(q2) >= -1, 'pre', list(c.prefix[:c.pos])))
+        c.oblige('project_chain_to_cycles:requires-nonempty-key-vector', z3.And(n >= 1, chain_vect.shape_e[0] >= 1), 'pre')
+        O = c.fresh_fun('p2c_out', I, R)
+        ON = c.fresh_fun('p2c_missing', I, B)
+        out = SArr((n,), lambda i: O(i), 'f', nan=lambda i: ON(i))
+        i = SInt(z3.Int('sq%d' % next(core._buf_ids)))
+        with core.SpecMode():
+            nanf = npshim.isnan(out)
+            hit, val = chain_of_cycle((vals, chain_vect, subset_vect), i)
+            body = implies(and_(0 <= i, i < wrap(n)), lambda: and_(implies(hit, lambda: and_(not_(nanf[i]), out[i] == val())), implies(not_(hit), lambda: nanf[i])))
+        c.assume(z3.ForAll([i.e], lift(body)))
+        return out
+
+    def comp_unit2():
+        comp_unit('project_chain_to_samples', 'cm', ['project_cycles_to_samples'], chain_of_sample)
+        U[-1].ns['project_chain_to_cycles'] = chain_to_cycles_stub
+    comp_unit2()
 
     # -- get_subset_vector: out[i] = -1 if valids[i] == 0 else (number of selected entries before i)
     CNT = z3.Function('cnt', I, I)
